@@ -30,7 +30,8 @@ func init() {
 			stepOnly(c, so, search, 1, map[string]bool{"Step": true, "Backstep": true})
 			bal := &RuleResult{Rule: "BALANCE", Doc: "every searcher receives exactly as many Backstep as Step calls on every path to a return: a local stack is pushed once per Step pass, popped once per Backstep pass, and every return is guarded by the stack being empty", MinInst: 3}
 			ruleBalance(c, bal, "(*dawg.Dawg).Search", "Step", "Backstep")
-			return []*RuleResult{pure, ro, so, bal}
+			nw := ruleNarrow(c, inFiles("dawg_search.go"))
+			return []*RuleResult{pure, ro, so, bal, nw}
 		},
 		controls: func(ctl *Ctx) []*RuleResult {
 			ro := &RuleResult{Rule: "SEARCHER-RO"}
@@ -49,7 +50,8 @@ func init() {
 				bal.Findings = append(bal.Findings, f)
 			}
 			bal.Undecided = append(bal.Undecided, good.Undecided...)
-			return []*RuleResult{ro, so, bal}
+			nw := ruleNarrow(ctl, inFiles("balctl.go"))
+			return []*RuleResult{ro, so, bal, nw}
 		},
 	})
 }
@@ -790,4 +792,59 @@ func backwardUntil(b *ssa.BasicBlock, i int, stop *ssa.BasicBlock, evAt map[ssa.
 		}
 	}
 	walk(b, i)
+}
+
+// ruleNarrow: the search keeps positions, link numbers and counts in machine integers; a
+// conversion to a narrower integer type is only harmless when the value provably fits. A node has
+// up to 256 links and a word any length, so a link number or depth squeezed into a byte wraps for
+// exactly the extreme inputs no test contains.
+func ruleNarrow(c *Ctx, files func(string) bool) *RuleResult {
+	r := &RuleResult{Rule: "NARROW", Doc: "every conversion of an integer to a narrower integer type in the search and the searchers is of a value proved to fit", MinInst: 0}
+	n := 0
+	for _, fn := range c.Funcs {
+		if fn.Synthetic != "" || fn.Blocks == nil || !files(c.Fset.Position(fn.Pos()).Filename) {
+			continue
+		}
+		n++
+		var P *Prover
+		for _, b := range fn.Blocks {
+			for _, in := range b.Instrs {
+				cv, ok := in.(*ssa.Convert)
+				if !ok || !isInt(cv.Type()) || !isInt(cv.X.Type()) {
+					continue
+				}
+				if _, isK := cv.X.(*ssa.Const); isK {
+					continue
+				}
+				fb, tb := intBits(cv.X.Type()), intBits(cv.Type())
+				if tb >= fb {
+					continue
+				}
+				lo, hi, okR := typeRange(cv.Type())
+				if !okR {
+					continue
+				}
+				if P == nil {
+					P = NewProver(c, fn)
+				}
+				v := P.poly(cv.X)
+				src := c.srcAt(cv.Pos())
+				if src == "" {
+					src = valName(cv)
+				}
+				r.inst("%s: %s (%d -> %d bits)", c.short(fn), src, fb, tb)
+				okLo := P.Prove(constP(lo).add(v, -1), b)
+				okHi := P.Prove(v.add(constP(-hi), 1), b)
+				r.oblig(okLo && okHi)
+				if !(okLo && okHi) {
+					r.find(c.short(fn)+":narrowing "+src, c.instrPos(cv), "%s converts %s to a %d-bit integer but the value is not proved to lie in [%d, %d]: it wraps for large nodes or long words", c.short(fn), P.showTerm(v), tb, lo, hi)
+				}
+			}
+		}
+	}
+	r.inst("%d functions of the search scanned for narrowing conversions", n)
+	if n == 0 {
+		r.undecided("no search function found")
+	}
+	return r
 }
